@@ -1580,9 +1580,10 @@ class Color(object):
     def parse_color_rgbp(values):
         """Parse SVG color, RGB percent value declarations"""
         ratio = 255.0 / 100.0
-        r = round(float(values[0]) * ratio)
-        g = round(float(values[1]) * ratio)
-        b = round(float(values[2]) * ratio)
+        # Clamp before rounding: round() of an infinite percentage raises OverflowError.
+        r = round(min(max(float(values[0]) * ratio, 0.0), 255.0))
+        g = round(min(max(float(values[1]) * ratio, 0.0), 255.0))
+        b = round(min(max(float(values[2]) * ratio, 0.0), 255.0))
         if values[3] is not None:
             opacity = float(values[3])
         else:
@@ -1705,6 +1706,10 @@ class Color(object):
     def opacity(self, opacity):
         if self.value is None:
             raise ValueError
+        if opacity > 1:
+            opacity = 1.0
+        if opacity < 0:
+            opacity = 0.0
         a = int(round(opacity * 255.0))
         a = Color.crimp(a)
         self.alpha = a
